@@ -8,6 +8,15 @@ TRUSTED_BASE = [
 ]
 
 TABLE = {
+    "C11": {
+        "obligations": ["C11_table_impl", "C11_table_spec", "C11_nonzero_is_error", "C11_produce", "C11_produce_ok", "C11_offsets",
+                        "C11_offset_partition", "C11_list_offset_partition", "C11_group_fetch", "C11_commit_scan", "C11_poll",
+                        "C11_fetch_no_data", "C11_producer_send"],
+        "what": "Theorems: (a) C11_table_impl - for every i16 wire code, what the real crate reported when all 65 536 codes were pushed through one produce response (table regenerated into Generated/ErrorTable.lean on every run, as maximal runs) equals the model's kafkaCode: kernel-checked by decide over the runs plus a soundness/coverage lemma; C11_table_spec - kafkaCode equals the specification table (0 success, 1..35 individually, anything else unknown); (b) per API: a non-zero code yields Err(kind) and no offset in produce confirmations; offset look-ups fail with TopicPartitionError naming the first failing partition in response order wherever it stands; group-offset fetch treats only code 3 as 'none'; the commit scan returns the first non-zero code; a poll fails with the first partition error and changes nothing; an erroneous partition exposes no messages. Correspondence + judge: every response kind with an injected code (-1..35, boundaries, sampled unmapped) at a random position among healthy partitions, with the broker still attaching data to the failing partition.",
+        "rule": "scenario = random cluster, response order req/rev/rot, one injected error code (documented / boundary / random i16) on one partition for one of: produce, fetch, offsets, list offsets, commit, group offset fetch, coordinator look-up, consumer poll, producer send; non-trivial = a request reached a broker; distinct = distinct (operation, result) sequences",
+        "assumptions": ["retry attempts limited to 1 in these scenarios (retry behaviour is C14)"],
+        "technique": "Lean 4 theorems + a finite table regenerated from the implementation on every run and re-checked by `decide` (translation validation of the table), correspondence run for the propagation sites",
+    },
     "C10": {
         "obligations": ["C10_metadata", "C10_produce", "C10_offsets", "C10_list_offsets", "C10_coordinator", "C10_offset_commit",
                         "C10_offset_fetch", "C10_merge_ok", "C10_group_offsets_none", "C10_group_offsets_some", "C10_confirms"],
